@@ -84,7 +84,39 @@ def state_attrs(tree):
     return out
 
 
+def mutated_params(tree):
+    """{function name: set of positions (self excluded) of parameters the
+    function writes through} over the functions of _base.py, by name"""
+    out = {}
+    for fn in ast.walk(tree):
+        if not isinstance(fn, ast.FunctionDef):
+            continue
+        params = [a.arg for a in fn.args.args]
+        if params and params[0] == "self":
+            params = params[1:]
+        hit = set()
+        for n in ast.walk(fn):
+            name = None
+            if isinstance(n, ast.Call) and isinstance(n.func, ast.Attribute) and n.func.attr in MUTATORS \
+                    and isinstance(n.func.value, ast.Name):
+                name = n.func.value.id
+            elif isinstance(n, (ast.Assign, ast.Delete)):
+                for t in n.targets:
+                    if isinstance(t, ast.Subscript) and isinstance(t.value, ast.Name):
+                        name = t.value.id
+                        if name in params:
+                            hit.add(params.index(name))
+                continue
+            if name in params:
+                hit.add(params.index(name))
+        if hit:
+            out.setdefault(fn.name, set()).update(hit)
+    return out
+
+
 class _Walk(object):
+    MUTATED = {}
+
     def __init__(self, fn, attrs, comparing):
         self.fn = fn
         self.attrs = attrs
@@ -114,6 +146,14 @@ class _Walk(object):
                     attr, stale = self.alias[n.func.value.id]
                     if stale:
                         self.hits.append((n, n.func.value.id, attr, "%s.%s(...)" % (n.func.value.id, n.func.attr)))
+                # a stale alias handed to a function that writes through that parameter
+                if nm in self.MUTATED:
+                    for i, a in enumerate(n.args):
+                        if isinstance(a, ast.Name) and a.id in self.alias and i in self.MUTATED[nm]:
+                            self.events += 1
+                            attr, stale = self.alias[a.id]
+                            if stale:
+                                self.hits.append((n, a.id, attr, "%s(..%s..), which writes through it" % (nm, a.id)))
         for n in ast.walk(e):
             if isinstance(n, ast.Call) and self._call_name(n) in self.comparing and not (
                     self._call_name(n) in ("minKey", "maxKey") and not n.args and not n.keywords):
@@ -202,6 +242,7 @@ def check(res, rule="PY-STALE-ALIAS"):
     if not {"_keys", "_data"} <= attrs:
         raise AnalysisError("anchor vanished: state attributes of the Python nodes (%s)" % sorted(attrs))
     cls = pyfront.classes(tree)
+    _Walk.MUTATED = mutated_params(tree)
     n = 0
     aliases = 0
     for cname in NODE_CLASSES:
